@@ -63,7 +63,7 @@ void gen_hist_ops(Rng& g, Rng& fr, const std::string& prop, unsigned nops, bool 
       case OP_RESET_HANDLE: o.c = g.below(400); break;
       case OP_MAP_ADD: case OP_ADD_CHUNK: if ((prop == "C12" || prop == "C03") && nops <= 40 && g.chance(1, 12)) { static const uint64_t C[] = {3, 22, 23, 24, 30, 129, 130, 254, 255, 256, 300, 1000, 3000}; o.d |= (C[g.below(13)] - 1) << 4; } break;
       case OP_SETVAL: { if (g.chance(1, 2)) o.c = gen_u64(g); else { GenProfile gp; MV t; do { Rng r2(g.next(), "f"); t = gen_mv(r2, gp, 99); } while (t.kind != MK_FLOAT); o.c = t.val; } break; }
-      case OP_LOAD_RAW: o.c = g.next(); if ((prop == "C13" || prop == "C03" || prop == "C04") && g.chance(1, 2)) { o.d |= 8; deep_follow = 3; } else o.d &= ~8ull; break;
+      case OP_LOAD_RAW: o.c = g.next(); o.d &= ~12ull; if ((prop == "C13" || prop == "C03" || prop == "C04") && g.chance(1, 2)) { o.d |= 8; deep_follow = 3; } else if (g.chance(1, 10)) { o.d |= 4; deep_follow = 2; } break;
       default: break;
     }
     if (code <= OP_BUILD_TAG || code == OP_COPY || code == OP_LOAD || code == OP_LOAD_RAW || code == OP_GET || code == OP_TAG_ITEM || code == OP_INCREF) n_pool++;
@@ -83,7 +83,8 @@ J gen_hist(const std::string& prop, uint64_t run_seed, const std::string& tier) 
   Rng g(run_seed, "gen"), fr(run_seed, "fault"), kn(run_seed, "knobs");
   J plan = J::obj(); J knobs = J::obj();
   bool c13 = prop == "C13";
-  knobs.set("be", c13 ? kn.below(3) : (kn.chance(1, 6) ? (uint64_t)BE_TAG : (uint64_t)BE_DIRECT));
+  { uint64_t be = c13 ? kn.below(3) : (uint64_t)BE_DIRECT; if (!c13) { uint64_t r = kn.below(8); be = r == 0 ? BE_TAG : r == 1 ? BE_ARENA : BE_DIRECT; } knobs.set("be", be); }
+  knobs.set("pack", kn.below(2));   // arena back end only: blocks back to back, as a header-less size-class allocator places them
   knobs.set("rm", kn.below(2));
   knobs.set("maxreq", (uint64_t)1 << 20);
   knobs.set("fill", kn.below(4) == 0 ? kn.range(1, 2) : 0);   // fresh memory: mostly 0xAA, sometimes all-zero or all-ones
